@@ -297,6 +297,40 @@ def pred_once(prog: Program) -> RuleResult:
         else:
             ok = is_truth_of_result(flag)
     r.check(ok, "Variable._process_output#truth", site(g), src(rets[0].value) if rets else "", "is_false = not bool(result)", "the emitted falsity is not `not bool(result)` of the invocation")
+    # ... and whether that truth is taken depends on where the call stands, never on what the result is: a test on the result in front of
+    # it (`hasattr(result, '__len__')`, isinstance, a comparison) makes some falsy results - '', [], 0 - count as true
+    from ..model import parents_of as _parents_of
+
+    par = _parents_of(g.node)
+    local1 = {}
+    for x in walk_local(g.node):
+        if isinstance(x, ast.Assign) and len(x.targets) == 1 and isinstance(x.targets[0], ast.Name):
+            local1.setdefault(x.targets[0].id, []).append(x.value)
+
+    def position_only(t):
+        if isinstance(t, ast.UnaryOp) and isinstance(t.op, ast.Not):
+            return position_only(t.operand)
+        if isinstance(t, ast.BoolOp):
+            return all(position_only(v) for v in t.values)
+        if isinstance(t, ast.Name) and len(local1.get(t.id, [])) == 1:
+            return position_only(local1[t.id][0])
+        names = {y.id for y in ast.walk(t) if isinstance(y, ast.Name)}
+        return names <= {g.params[0]} and ("_stands_as_condition_" in src(t) or "_parent_" in src(t))
+
+    n_truth = 0
+    for x in walk_local(g.node):
+        if not (isinstance(x, ast.UnaryOp) and isinstance(x.op, ast.Not) and src(x.operand) in (f"bool({g.params[1]})", g.params[1])):
+            continue
+        n_truth += 1
+        y, bad = x, None
+        while y is not g.node and y in par:
+            p_ = par[y]
+            if isinstance(p_, (ast.If, ast.IfExp, ast.While)) and y is not p_.test and not position_only(p_.test):
+                bad = bad or p_.test
+            y = p_
+        r.check(bad is None, f"Variable._process_output#truth-for-every-result[{n_truth}]", site(g, x), src(bad)[:80] if bad is not None else "", "the truth of the result is taken under a test on the node's position only",
+                f"`{src(x)}` is taken only when `{src(bad)[:70] if bad is not None else ''}` holds: the test looks at something else than where the call stands, so for some results "
+                "(an empty text, list or tuple, a user object with __len__ 0) a call that returns a falsy value counts as true")
     # every value an argument expression produces reaches the callable: an argument's result is a value, not a condition, so the
     # loops that enumerate argument values may not filter on its truth flag (a nested call returning 0 / False / '' is still an argument)
     from ..callgraph import self_closure as _sc
